@@ -324,6 +324,10 @@ def _run_check(spec, argv):
         return 1 if rep else 0
     tier, seed = tier_and_seed(argv)
     t0 = time.time()
+    # second-opinion solvers on every N-th deciding (validity) query of each worker; MIRSE_CROSS_EVERY overrides, 0 disables
+    from mirse import interp as _interp
+    if 'MIRSE_CROSS_EVERY' not in os.environ:
+        _interp.CROSS_EVERY = 40 if tier == 'quick' else 15
     prog, mir_info = engine.load_program(deps=getattr(spec, 'DEPS', ()))
     rp = Replay()
     try:
@@ -399,6 +403,9 @@ def _run_check(spec, argv):
         'mir': mir_info,
         'exhaustive': False,
         'known_findings_hit': sorted(known_lines),
+        # second-opinion solvers on sampled deciding queries (MIRSE_CROSS_EVERY=N: every N-th validity query per worker)
+        'cross_solver': {k[6:]: (round(v, 2) if isinstance(v, float) else v) for k, v in stats.items() if k.startswith('cross_')} or
+                        {'enabled': False},
     }
     coverage.update(extra)
     assumptions = ['the nightly MIR (-Zunpretty=mir, overflow checks on) of /repo\'s working tree is what is executed; '
